@@ -241,6 +241,13 @@ for tier, lst in (("quick", SPLITS_Q), ("thorough", SPLITS_T)):
                        bound="view %dx%d, band size %d, %d parts (concrete); %s%s" % (sp[1], sp[2], sp[3], sp[4], "symbolic start" if cs is None else "start %d (concrete: the cropped compositions exhaust memory with a symbolic start)" % cs, ", view cropped at (left 1, top 2) out of a parent 3 pixels larger in both dimensions" if sp[0].startswith("cropped") else ""),
                        claim="%s: None iff the documented condition; else the parts are, by address and length, the consecutive bands of the parent" % sp[0]))
 
+# the immutable cropped width split of a 4x2 view exceeds the 12 GB memory limit of the runner in < 2 min (11 harnesses, measured in the
+# thorough sweep): development-only; the 3x2 instances (quick tier) and the `_mut` 4x2 instances (thorough tier) cover the same code
+_OVER_12GB = ('g5b_cropped_w_4x2_s1_p1_at0', 'g5b_cropped_w_4x2_s1_p1_at3', 'g5b_cropped_w_4x2_s3_p1_at0', 'g5b_cropped_w_4x2_s3_p1_at1', 'g5b_cropped_w_4x2_s3_p2_at0', 'g5b_cropped_w_4x2_s3_p2_at1', 'g5b_cropped_w_4x2_s3_p3_at0', 'g5b_cropped_w_4x2_s3_p3_at1', 'g5b_cropped_w_4x2_s4_p1_at0', 'g5b_cropped_w_4x2_s4_p2_at0', 'g5b_cropped_w_4x2_s4_p4_at0')
+for _h in hs:
+    if _h["name"] in _OVER_12GB:
+        _h["tier"] = "dev"
+
 UNIT = dict(
     id="G4",
     title="containers: rows by address (ViewInv) and split_by_* bands by address (G5b)",
